@@ -17,42 +17,62 @@
 (* repository's test suite - can be validated against it.                  *)
 (***************************************************************************)
 EXTENDS Integers
-CONSTANT NoThr        \* placeholder value of thr while no threshold_ exists (strings and numbers do not compare in TLC)
+(* Apalache type annotations ($thr is the type of a threshold value: Int in MC/Apalache models, a Dy tuple in traces) *)
+\* @typeAlias: thr = Int;
+\* @typeAlias: state = { fitted: Bool, dig: Int, hasthr: Bool, thr: $thr, nfeat: Int, par: Int };
+ObjLife_aliases == TRUE
+CONSTANT
+  \* @type: $thr;
+  NoThr        \* placeholder value of thr while no threshold_ exists (strings and numbers do not compare in TLC)
 
 Queries == {"predict", "decision_function", "score", "transform", "pair_distance", "pair_score",
             "score_pairs", "get_metric", "get_mahalanobis_matrix"}
 
+\* @type: ($state) => Bool;
 Unfitted(s) == ~s.fitted
 
 (* ---- the conjuncts of the actions, named so that a trace verdict can say which one an observed step broke ---- *)
+\* @type: ($state, $state) => Bool;
 FitKeepsParams(s, t)   == t.par = s.par
+\* @type: ($state, Int, Bool) => Bool;
 FitPost(t, d, isPairs) == /\ t.fitted /\ t.dig # 0
                           /\ (d # -1 => t.nfeat = d)
                           /\ (isPairs => t.hasthr)
+\* @type: ($state, $state) => Bool;
 Silent(s, t)           == t = s
+\* @type: ($state, Bool) => Bool;
 UnfittedRaises(s, raised) == Unfitted(s) => raised
+\* @type: ($state, $state, $thr) => Bool;
 Stores(s, t, v)        == t = [s EXCEPT !.hasthr = TRUE, !.thr = v]
+\* @type: ($state, $state) => Bool;
 OnlyThreshold(s, t)    == t.hasthr /\ [t EXCEPT !.thr = s.thr, !.hasthr = s.hasthr] = s
 
 (* fit(data with d features): on success the object is fitted, n_features_in_ is d, a pairs classifier has a       *)
 (* threshold; the hyper-parameters are those it had before (success or not).  A failing fit promises nothing else. *)
+\* @type: ($state, $state, Int, Bool, Bool) => Bool;
 Fit(s, t, d, ok, isPairs) == FitKeepsParams(s, t) /\ (ok => FitPost(t, d, isPairs))
 
 (* a query never changes anything; on an unfitted object it raises *)
+\* @type: ($state, $state, Bool) => Bool;
 Query(s, t, raised) == Silent(s, t) /\ UnfittedRaises(s, raised)
 
 (* set_threshold(v) stores v and nothing else; on an unfitted object it raises and stores nothing *)
+\* @type: ($state, $state, $thr, Bool) => Bool;
 SetThreshold(s, t, v, raised) == UnfittedRaises(s, raised) /\ (raised => Silent(s, t)) /\ (~raised => Stores(s, t, v))
 
 (* calibrate_threshold picks a threshold; model, parameters and n_features_in_ are untouched; invalid arguments or an *)
 (* unfitted object raise with nothing stored                                                                          *)
+\* @type: ($state, $state, Bool) => Bool;
 Calibrate(s, t, raised) == UnfittedRaises(s, raised) /\ (raised => Silent(s, t)) /\ (~raised => OnlyThreshold(s, t))
 
 (* the owner of the object assigns attributes / calls set_params: anything *)
+\* @type: ($state, $state) => Bool;
 Env(s, t) == TRUE
 
+\* @type: (Int) => $state;
 Fresh(p) == [fitted |-> FALSE, dig |-> 0, hasthr |-> FALSE, thr |-> NoThr, nfeat |-> -1, par |-> p]
 
 (* what the library's actions preserve (checked by TLC on MC_ObjLife, Env excluded) *)
+\* @type: ($state) => Bool;
 WellFormed(s) == /\ (s.hasthr => s.fitted) /\ (~s.hasthr => s.thr = NoThr) /\ (s.nfeat # -1 => s.fitted) /\ (s.fitted <=> s.dig # 0)
 =============================================================================
